@@ -99,6 +99,7 @@ def getETreeBuilder(ElementTreeImplementation, fullTree=False):
 
         def insertBefore(self, node, refNode):
             index = list(self._element).index(refNode._element)
+            self._childNodes.insert(index, node)
             self._element.insert(index, node._element)
             node.parent = self
 
